@@ -1,46 +1,74 @@
 """Round 2 - the remaining functions of jsonargparse/_actions.py and the action helpers of jsonargparse/_common.py.
 
 Parsers and actions are records (Rec) whose class name is the real class name (isinstance follows the class table read from /repo).
+Three clauses are refuted on the unchanged tree (real behaviour, reproduced natively - see the notes on the obligations):
+remove_actions leaves the option-string table alone; ActionYesNo.__call__ takes a yes option that itself starts with '--' + no_prefix for the no option;
+ActionConfigFile.__init__ ends in IndexError for a positional / for several short options; parse_kwargs_context never restores parse_kwargs.
 
 C06 (a key is found iff an action with exactly that dest exists, at any nesting below subcommands)
   _find_action                 end to end: the real _find_action_and_subcommand, filter_default_actions and split_key_root are interpreted from their
                                own bodies over declared parser trees (flat with a group loader, three levels of subcommands with an alias, loader/plain
-                               with one dest, empty), for ALL strings `dest` (symbolic): an action is returned only for one of its own full keys
-                               (subcommand names joined with dots + its dest; a subcommands action for its dest and for each of its names), a group loader
-                               only when no other action has that key, the help / print-config actions never, None only when no declared key equals dest;
-                               the caller's exclude is honoured at every depth; nothing is modified
-  _find_parent_action          end to end likewise (real _find_parent_action_and_subcommand and split_key too), for ALL strings with at most 3 dots:
-                               the action of the key itself, else of its longest proper dotted prefix that is a declared key, else None
+                               with one dest, loader alone, empty), for ALL strings `dest` (symbolic): an action is returned only for one of its own full
+                               keys (subcommand names joined with dots + its dest; a subcommands action for its dest and for each of its names), a group
+                               loader only when no other action has that key, the help / print-config actions never, None only when no declared key equals
+                               dest; the caller's exclude (a class or a tuple) is honoured at every depth; nothing is modified
+  _find_parent_action          end to end likewise (real _find_parent_action_and_subcommand and split_key too): the action of the key itself, else of its
+                               longest proper dotted prefix that is a declared key, else None.  Flat trees: ALL strings with at most 3 dots (symbolic);
+                               the subcommand tree: a systematic family of concrete keys (every declared key, one / two segments below it, a proper string
+                               prefix, a longer name, trailing / leading / doubled dots, unknown roots, the help keys)
   filter_default_actions       exactly the members that are not help / class-help / print-config actions (subclasses included), order and keys kept,
-                               list in -> new list, dict in -> new dict, the argument is not modified
-  remove_actions               removes exactly the actions of the given types from _actions, from every group and from the option-string table;
-                               every other action stays where it was, in order; actions themselves are not touched
+                               list in -> new list, dict in -> new dict, the argument is not modified (all lists / dicts of up to 3 members over 7 classes)
+  remove_actions (+ remove)    removes exactly the actions of the given types (a class or a tuple, subclasses included) from _actions, from every group
+                               and from the option-string table [REFUTED: the table is left alone]; every other action stays where it was, in order;
+                               actions and the parser's other attributes are not touched (1-3 actions over 7 classes x 3 group layouts x 4 type tuples)
+  get_optionals_as_positionals_actions   exactly the user-declared options that take one value (nargs None or 1; no config / loader / completion / help /
+                               print-config action, not subclass-typed; positionals only when asked), in declaration order; nothing modified
+  supports_optionals_as_positionals      true exactly when the setting (symbolic) is on, the parser has no subcommands and is not an inner parser
 C07
-  ActionParser.__init__        accepts a jsonargparse ArgumentParser (or a subclass) and keeps it; anything else (None, argparse's parser, a string, a class)
-                               is refused with ValueError
-  ActionParser._is_valid_action_parser   True exactly for an ActionParser instance; the parser itself as its own sub-parser is refused with ValueError
-  ActionYesNo._add_dest_prefix for ALL prefixes / names (symbolic): dest' = prefix.dest, options '--[yes_prefix]prefix.name' and '--[no_prefix]prefix.name'
+  ActionParser.__init__        accepts a jsonargparse ArgumentParser (or a subclass) and keeps that very parser; anything else (omitted / None, argparse's
+                               parser, a string, an ActionParser, a Namespace, a number) is refused with ValueError
+  ActionParser._is_valid_action_parser   True exactly for an ActionParser instance (subclasses included); the parser itself as its own sub-parser is
+                               refused with ValueError; nothing modified
+  ActionYesNo._add_dest_prefix for ALL prefixes / names / yes and no prefixes (symbolic): dest' = prefix.dest, options '--[yes_prefix]prefix.name' and
+                               '--[no_prefix]prefix.name'; nothing else on the action changes
 C09 (actions write only namespace[dest]; the class-help action changes nothing)
-  ActionYesNo.__call__         the yes option gives the explicit value (True without one), the no option its negation, for ALL option names / prefixes;
-                               only namespace.<dest> is written; factory mode hands the configured prefixes to the real action
-  ActionYesNo.__init__         declaration: option strings become [--[yes]name, --[no]name]; positional / wrong prefix / no_prefix=None with nargs != 1 refused
-                               with ValueError; default False unless given; nargs absent -> 0, 1 -> None, '?' kept; type is the boolean checker
-  ActionYesNo._boolean_type    true|yes -> True, false|no -> False (any case), a bool is itself, anything else TypeError (ALL strings through lower(x))
-  ActionYesNo._check_type      is _boolean_type of exactly that value
-  ActionConfigFile.__call__    hands (parser, cfg, own dest, value) to apply_config, nothing else
-  _ActionPrintConfig.__init__  dest and default suppressed (the option never writes to the namespace), one value
-  _ActionPrintConfig.is_print_config_requested   true exactly when the parser or one of its ancestors holds a pending request; nothing modified
-  _ActionHelpClassPath.__init__/__call__/update_init_kwargs/get_args_after_opt   default suppressed, only self and the given kwargs are written;
-                               factory mode builds a new action of the same class with the same type hint; get_args_after_opt returns exactly the
-                               arguments after the option (and its separate value), for ALL argument strings, and does not modify parser.args
+  ActionYesNo.__call__         for ALL option names and prefixes (symbolic): the yes option stores the explicit value (True without one) [REFUTED when the
+                               yes option itself starts with '--' + no_prefix; proved under that hypothesis], the no option its negation; exactly one
+                               write, namespace.<dest>; parser and action untouched; factory mode hands the configured prefixes (yes as yes, no as no)
+                               and the unchanged declaration keywords to one new action
+  ActionYesNo.__init__         declaration for ALL option strings / prefixes: option strings become [the yes option, '--' + no_prefix + name]; a positional,
+                               an option without '--' + yes_prefix, no_prefix=None with nargs other than 1 are refused with ValueError before argparse's
+                               initialiser runs; default False unless given; nargs absent -> 0, 1 -> None, '?' kept, never more than one value; metavar;
+                               type is the boolean checker; private keywords do not reach argparse; factory configuration keeps the prefixes only
+  ActionYesNo._boolean_type    true|yes -> True, false|no -> False (any case), a bool is itself, anything else TypeError (ALL strings through lower(x), all
+                               booleans / integers symbolic, None, float, list, 10 concrete spellings)
+  ActionYesNo._check_type      is _boolean_type of exactly that value (result and TypeError)
+  ActionConfigFile.__call__    hands (parser, namespace, own dest, value) to apply_config once and writes nothing itself; only apply_config's TypeError
+  _ActionPrintConfig.__init__  dest and default suppressed (the option never writes to the namespace), exactly one value, nothing else imposed
+  _ActionPrintConfig.is_print_config_requested   true exactly when the parser or one of its ancestors (chains of 1-3) holds a pending request; the request
+                               stays where it is
+  _ActionHelpClassPath.__init__      keeps the type hint; completes the keywords once and hands them to argparse without the private keyword
+  _ActionHelpClassPath.__call__      factory: one new action of the *same class* with the unchanged keywords plus the configured type hint; a call by
+                               argparse ends the way print_help ends, with exactly argparse's call arguments; action, parser, namespace untouched
+  _ActionHelpClassPath.update_init_kwargs   default suppressed, nargs '?' for a single type and untouched for a Union, base classes of the hint without
+                               Optional, protocol wording exactly when a base is a protocol; only _basename/_baseclasses/_kind written on the action
+  _ActionHelpClassPath.get_args_after_opt   exactly the arguments after the first use of the option (and after its separate value); parser.args is not
+                               modified (one-argument lines symbolic; lines of 1-3 arguments over a family of 10 concrete spellings around the option)
 C03 (refusals are TypeError / ValueError)
-  ActionConfigFile.__init__ / set_default_error / _ensure_single_config_argument / _add_print_config_argument
-  _ActionConfigLoad.__init__ / check_type, Action._check_type_
+  ActionConfigFile.__init__    for ALL option strings: accepted => no default, the dest-naming option has no dot; refused => ValueError [REFUTED:
+                               IndexError for a positional / several options without a long one]; help supplied only when absent
+  ActionConfigFile.set_default_error     always ValueError
+  ActionConfigFile._ensure_single_config_argument   ValueError exactly when a config argument (action='config' - ALL strings -, ActionConfigFile or a
+                               subclass) is added to a container that already has one
+  ActionConfigFile._add_print_config_argument   one print-config option named as configured (%s -> the config argument's dest), remembered on the container;
+                               none without a config argument or when disabled
+  _ActionConfigLoad.__init__   no default of its own (SUPPRESS), private keyword kept off argparse; factory keeps the base type
+  _ActionConfigLoad.check_type the result / TypeError of _load_config(value, parser), nothing written
+  Action._check_type_          the checker runs once on exactly the value, with exactly the given keywords it accepts; its result / TypeError / ValueError
+                               is the outcome; only the signature cache is written
 C17
   _ActionSubCommands.add_parser          always NotImplementedError, registers nothing
-  _ActionSubCommands.parse_kwargs_context   the context variable holds the keywords inside the body and is restored on every exit
-C06 (positionals-as-optionals candidates)
-  get_optionals_as_positionals_actions, supports_optionals_as_positionals
+  _ActionSubCommands.parse_kwargs_context   the context variable holds the keywords inside the body and is restored on every exit [REFUTED: never reset]
 """
 import z3
 
@@ -298,6 +326,945 @@ def rm_post(ctx, st, result):
     ctx.oblige("post", "returns-nothing", result is None)
 
 
+# ================================================================================================ ActionParser (C07)
+PARSER_KINDS = ["ArgumentParser", "MyParser", "omitted", "None", "argparse:ArgumentParser", "str", "ActionParser", "Namespace", "int"]
+
+
+def ap_setup(ctx):
+    _classes(ctx)
+    kind = PARSER_KINDS[ctx.choose(len(PARSER_KINDS), "parser-argument")]
+    val = {"omitted": None, "None": None, "str": z3.String("text"), "int": z3.Int("n")}.get(kind, Rec(kind, attrs={"tag": "given"}))
+    self = Rec("ActionParser")
+    env = {"self": self}
+    if kind != "omitted":
+        env["parser"] = val
+
+    def import_object(c, a, k):
+        c.event("import", a[0])
+        return ClassRef("ArgumentParser") if a[0] == "jsonargparse.ArgumentParser" else ClassRef("object")
+
+    return Setup(env=env, calls={"import_object": import_object}, data=dict(kind=kind, val=val, self=self))
+
+
+def ap_post(ctx, st, result):
+    d = st.data
+    ctx.oblige("post", f"accepted=>the-argument-is-a-jsonargparse-ArgumentParser-(or a subclass)[{d['kind']}]", d["kind"] in ("ArgumentParser", "MyParser"))
+    ctx.oblige("post", f"accepted=>that-very-parser-is-kept-as-the-inner-parser[{d['kind']}]", d["self"].attrs.get("_parser") is d["val"] and d["val"] is not None)
+    ctx.oblige("frame", f"the-parser-given-is-not-modified[{d['kind']}]", not isinstance(d["val"], Rec) or d["val"].attrs == {"tag": "given"})
+
+
+def ap_raises(ctx, st, exc):
+    d = st.data
+    ctx.oblige("raises", f"refused=>ValueError-and-the-argument-is-no-jsonargparse-ArgumentParser[{d['kind']}]", exc.cls == "ValueError" and exc.origin.startswith("raise@") and d["kind"] not in ("ArgumentParser", "MyParser"))
+
+
+ACTION_KINDS = ["ActionParser(other parser)", "ActionParser(this parser)", "MyActionParser(other parser)", "MyActionParser(this parser)", "class ActionParser", "None", "str", "ActionYesNo", "ActionConfigFile class"]
+
+
+def iv_setup(ctx):
+    _classes(ctx)
+    ctx.classes.add("MyActionParser", ["ActionParser"])
+    kind = ACTION_KINDS[ctx.choose(len(ACTION_KINDS), "action")]
+    parser = Rec("ArgumentParser", attrs={"tag": "outer"})
+    other = Rec("ArgumentParser", attrs={"tag": "inner"})
+    if "(" in kind:
+        action = Rec(kind.split("(")[0], attrs={"_parser": parser if "this" in kind else other})
+    else:
+        action = {"None": None, "str": z3.String("action-name")}.get(kind, Rec("type", attrs={"__name__": kind}))
+    return Setup(env={"parser": parser, "action": action}, data=dict(kind=kind, parser=parser, other=other, action=action))
+
+
+def iv_post(ctx, st, result):
+    d = st.data
+    is_ap = "(" in d["kind"]
+    ctx.oblige("post", f"True-exactly-for-an-ActionParser-instance(subclasses included),False-otherwise[{d['kind']}]", result is is_ap)
+    ctx.oblige("post", f"accepted=>the-inner-parser-is-not-the-parser-it-is-added-to[{d['kind']}]", "this parser" not in d["kind"])
+    ctx.oblige("frame", f"nothing-is-modified[{d['kind']}]", not ctx.mutlog)
+
+
+def iv_raises(ctx, st, exc):
+    d = st.data
+    ctx.oblige("raises", f"refused=>ValueError-for-a-parser-added-to-itself[{d['kind']}]", exc.cls == "ValueError" and exc.origin.startswith("raise@") and "this parser" in d["kind"])
+
+
+# ================================================================================================ ActionYesNo
+def _re_sub_prefix(c, a, k):
+    """re.sub('^' + literal, repl, text) for a literal without regex metacharacters: a leading `literal` of text is replaced by repl."""
+    pat, repl, text = lift(a[0]), lift(a[1]), lift(a[2])
+    c.oblige("pre", "re.sub-pattern-is-anchored('^' + literal)", z3.PrefixOf(S_("^"), pat))
+    lit = z3.SubString(pat, 1, z3.Length(pat) - 1)
+    return z3.If(z3.PrefixOf(lit, text), z3.Concat(repl, z3.SubString(text, z3.Length(lit), z3.Length(text) - z3.Length(lit))), text)
+
+
+def yn_prefixes(ctx, with_none=True):
+    yes = [z3.String("yes_prefix"), ""][ctx.choose(2, "yes_prefix:any-string/empty")]
+    no = [z3.String("no_prefix"), "no_", None][ctx.choose(3 if with_none else 2, "no_prefix:any-string/'no_'/None")]
+    return yes, no
+
+
+def ydp_setup(ctx):
+    yes, no = yn_prefixes(ctx)
+    name, prefix, dest = z3.String("name"), z3.String("prefix"), z3.String("dest")
+    opts = [z3.Concat(S_("--"), lift(yes), name)] + ([z3.Concat(S_("--"), lift(no), name)] if no is not None else [])
+    self = Rec("ActionYesNo", attrs={"_yes_prefix": yes, "_no_prefix": no, "dest": dest, "option_strings": list(opts), "default": False, "nargs": 0})
+    return Setup(env={"self": self, "prefix": prefix}, calls={"re.sub": _re_sub_prefix}, data=dict(yes=yes, no=no, name=name, prefix=prefix, dest=dest, self=self, opts=opts),
+                 watch={"name": name, "prefix": prefix})
+
+
+def ydp_post(ctx, st, result):
+    d = st.data
+    a = d["self"].attrs
+    tag = f"[yes_prefix:{'any' if is_z3(d['yes']) else repr(d['yes'])},no_prefix:{'any' if is_z3(d['no']) else repr(d['no'])}]"
+    ctx.oblige("post", "dest'==prefix+'.'+dest" + tag, lift(a["dest"]) == z3.Concat(d["prefix"], S_("."), d["dest"]), strings=True)
+    os_ = a["option_strings"]
+    ok_len = isinstance(os_, list) and len(os_) == len(d["opts"])
+    ctx.oblige("post", "the-number-of-option-strings-is-unchanged" + tag, ok_len)
+    if ok_len:
+        ctx.oblige("post", "yes-option'=='--'+yes_prefix+prefix+'.'+name" + tag, lift(os_[0]) == z3.Concat(S_("--"), lift(d["yes"]), d["prefix"], S_("."), d["name"]), strings=True)
+        if d["no"] is not None:
+            ctx.oblige("post", "no-option'=='--'+no_prefix+prefix+'.'+name" + tag, lift(os_[-1]) == z3.Concat(S_("--"), lift(d["no"]), d["prefix"], S_("."), d["name"]), strings=True)
+    ctx.oblige("frame", "prefixes,default-and-nargs-are-kept" + tag, a["_yes_prefix"] is d["yes"] and a["_no_prefix"] is d["no"] and a["default"] is False and a["nargs"] == 0 and set(a) == {"_yes_prefix", "_no_prefix", "dest", "option_strings", "default", "nargs"})
+
+
+def yc_setup(ctx):
+    yes, no = yn_prefixes(ctx)
+    mode = ctx.choose(2, "called-by-argparse/as-a-factory")
+    self = Rec("ActionYesNo", attrs={"_yes_prefix": yes, "_no_prefix": no, "dest": "flag"})
+    writes = []
+    ns = Rec("Namespace", methods={"__setattr__": lambda c, s_, a, k: writes.append((a[0], a[1]))})
+    parser = Rec("ArgumentParser", attrs={"tag": "p"})
+    if mode == 1:
+        kwargs = {"option_strings": ["--flag"], "dest": "flag", "nargs": "?"}
+        made = []
+        calls = {"ActionYesNo": lambda c, a, k: (made.append((a, dict(k))), Rec("ActionYesNo", attrs={"made": True}))[1]}
+        return Setup(env={"self": self, "args": (), "kwargs": kwargs}, calls=calls, data=dict(mode=mode, yes=yes, no=no, self=self, made=made))
+    name = z3.String("name")
+    which = ["yes-option", "no-option"][ctx.choose(2 if no is not None else 1, "option-used")]
+    opt = z3.Concat(S_("--"), lift(yes if which == "yes-option" else no), name)
+    vk = ctx.choose(3, "value:explicit-bool/[](nargs=0)/None('?' without a value)")
+    value = [z3.Bool("explicit"), [], None][vk]
+    return Setup(env={"self": self, "args": (parser, ns, value, opt), "kwargs": {}}, data=dict(mode=mode, yes=yes, no=no, self=self, which=which, opt=opt, value=value, writes=writes, parser=parser, name=name),
+                 watch={"name": name, "option_string": opt})
+
+
+def yc_post(ctx, st, result):
+    d = st.data
+    tag = f"[yes_prefix:{'any' if is_z3(d['yes']) else repr(d['yes'])},no_prefix:{'any' if is_z3(d['no']) else repr(d['no'])}]"
+    a = d["self"].attrs
+    ctx.oblige("frame", "the-action-itself-is-not-modified" + tag, a["_yes_prefix"] is d["yes"] and a["_no_prefix"] is d["no"] and a["dest"] == "flag" and len(a) == 3)
+    if d["mode"] == 1:
+        ok = len(d["made"]) == 1 and d["made"][0][0] == () and result is not None and isinstance(result, Rec) and result.attrs.get("made") is True
+        ctx.oblige("post", "factory:returns-a-new-ActionYesNo-built-from-the-declaration-keywords" + tag, ok)
+        if ok:
+            kw = d["made"][0][1]
+            ctx.oblige("post", "factory:the-configured-prefixes-reach-the-real-action(yes as yes,no as no)" + tag, kw.get("_yes_prefix", "missing") is d["yes"] and kw.get("_no_prefix", "missing") is d["no"])
+            ctx.oblige("post", "factory:the-declaration-keywords-are-passed-on-unchanged" + tag, {k: v for k, v in kw.items() if not k.startswith("_")} == {"option_strings": ["--flag"], "dest": "flag", "nargs": "?"})
+        return
+    tag += f"[{d['which']},value:{'bool' if is_z3(d['value']) else d['value']!r}]"
+    w = d["writes"]
+    ctx.oblige("frame", "exactly-one-write:namespace.<dest>;the-parser-is-not-touched" + tag, len(w) == 1 and w[0][0] == "flag" and d["parser"].attrs == {"tag": "p"} and result is None)
+    if len(w) != 1:
+        return
+    given = d["value"] if is_z3(d["value"]) else z3.BoolVal(True)
+    got = lift(w[0][1]) if isinstance(w[0][1], bool) or is_z3(w[0][1]) else None
+    if got is None or got.sort() != z3.BoolSort():
+        ctx.oblige("post", "a-boolean-is-stored" + tag, False)
+        return
+    if d["which"] == "no-option":
+        ctx.oblige("post", "the-no-option-stores-False(the negation of an explicit value)" + tag, got == z3.Not(given), strings=True)
+    else:
+        ctx.oblige("post", "the-yes-option-stores-True(an explicit value as given)" + tag, got == given, strings=True,
+                   note="refuted when the yes option itself starts with '--' + no_prefix (default prefixes: --no_thing declared as the option)")
+        if d["no"] is not None:
+            ctx.oblige("post", "the-yes-option-stores-True(an explicit value as given)-provided-it-does-not-itself-start-with-'--'+no_prefix" + tag,
+                       z3.Implies(z3.Not(z3.PrefixOf(z3.Concat(S_("--"), lift(d["no"])), d["opt"])), got == given), strings=True)
+
+
+BOOLEAN_TYPE = Rec("function ActionYesNo._boolean_type")
+
+
+def yi_setup(ctx):
+    mode = ctx.choose(2, "declared-with-keywords/configured-as-a-factory")
+    self = Rec("ActionYesNo")
+    inited = []
+    calls = {"re.sub": _re_sub_prefix, "super": lambda c, a, k: Rec("super()", methods={"__init__": lambda c2, s2, a2, k2: inited.append((a2, dict(k2)))})}
+    consts = {"ActionYesNo._boolean_type": BOOLEAN_TYPE}
+    if mode == 1:
+        yes, no = yn_prefixes(ctx)
+        return Setup(env={"self": self, "yes_prefix": yes, "no_prefix": no, "kwargs": {}}, calls=calls, consts=consts, data=dict(mode=mode, yes=yes, no=no, self=self, inited=inited))
+    yes_given = ctx.choose(2, "_yes_prefix-keyword-present") == 1
+    no_given = ctx.choose(2, "_no_prefix-keyword-present") == 1
+    yes, no = yn_prefixes(ctx) if (yes_given and no_given) else ((z3.String("yes_prefix") if yes_given else ""), ([z3.String("no_prefix"), None][ctx.choose(2, "no_prefix:any/None")] if no_given else "no_"))
+    positional = ctx.choose(2, "positional") == 1
+    opt = z3.String("option")
+    nargs = ["absent", 1, "?", 0, "+", 2][ctx.choose(6, "nargs")]
+    default = [None, Rec("default")][ctx.choose(2, "default-given")]
+    opts = [] if positional else [opt]
+    kwargs = {"option_strings": opts, "dest": "flag"}
+    if yes_given:
+        kwargs["_yes_prefix"] = yes
+    if no_given:
+        kwargs["_no_prefix"] = no
+    if nargs != "absent":
+        kwargs["nargs"] = nargs
+    if default is not None:
+        kwargs["default"] = default
+    return Setup(env={"self": self, "kwargs": kwargs}, calls=calls, consts=consts,
+                 data=dict(mode=mode, yes=yes, no=no, self=self, inited=inited, positional=positional, opt=opt, nargs=nargs, default=default, kwargs=kwargs), watch={"option": opt})
+
+
+def _same(a, b):
+    return a == b if isinstance(a, str) and isinstance(b, str) else a is b
+
+
+def _yi_tag(d):
+    t = f"[yes_prefix:{'any' if is_z3(d['yes']) else repr(d['yes'])},no_prefix:{'any' if is_z3(d['no']) else repr(d['no'])}"
+    if d["mode"] == 0:
+        t += f",{'positional' if d['positional'] else 'option'},nargs:{d['nargs']},default:{'given' if d['default'] is not None else 'absent'}"
+    return t + "]"
+
+
+def yi_post(ctx, st, result):
+    d = st.data
+    tag = _yi_tag(d)
+    a = d["self"].attrs
+    ctx.oblige("post", "the-prefixes-given-are-the-prefixes-kept(yes as yes,no as no;defaults '' and 'no_')" + tag, _same(a.get("_yes_prefix", "missing"), d["yes"]) and _same(a.get("_no_prefix", "missing"), d["no"]))
+    if d["mode"] == 1:
+        ctx.oblige("post", "configuring-the-factory-declares-nothing(no argparse initialisation)" + tag, d["inited"] == [] and set(a) == {"_yes_prefix", "_no_prefix"})
+        return
+    ctx.oblige("post", "accepted=>not-a-positional" + tag, not d["positional"])
+    ctx.oblige("post", "accepted=>the-option-starts-with-'--'+yes_prefix" + tag, z3.PrefixOf(z3.Concat(S_("--"), lift(d["yes"])), d["opt"]), strings=True)
+    ctx.oblige("post", "accepted=>with-no_prefix=None-a-given-nargs-is-1" + tag, d["no"] is not None or d["nargs"] in ("absent", 1))
+    ok = len(d["inited"]) == 1 and d["inited"][0][0] == ()
+    ctx.oblige("post", "argparse's-initialiser-runs-once-with-keywords-only" + tag, ok)
+    if not ok:
+        return
+    kw = d["inited"][0][1]
+    os_ = kw.get("option_strings")
+    if d["no"] is None:
+        ctx.oblige("post", "no_prefix=None:the-option-strings-are-the-declared-one-only" + tag, isinstance(os_, list) and len(os_) == 1 and os_[0] is d["opt"])
+    else:
+        ok2 = isinstance(os_, list) and len(os_) == 2 and os_[0] is d["opt"]
+        ctx.oblige("post", "the-option-strings-are-[the declared yes option, the no option]" + tag, ok2)
+        if ok2:
+            pre = z3.Concat(S_("--"), lift(d["yes"]))
+            rest = z3.SubString(d["opt"], z3.Length(pre), z3.Length(d["opt"]) - z3.Length(pre))
+            ctx.oblige("post", "no-option=='--'+no_prefix+(the option name after '--'+yes_prefix)" + tag, lift(os_[1]) == z3.Concat(S_("--"), lift(d["no"]), rest), strings=True)
+    want_nargs = {"absent": 0, 1: None, "?": "?"}.get(d["nargs"], "at-most-one")
+    got = kw.get("nargs", "missing")
+    ctx.oblige("post", "nargs:absent->0(a flag),1->one-value(None),'?'->kept;never-more-than-one-value" + tag, (got in (0, None, "?") and not isinstance(got, bool)) if want_nargs == "at-most-one" else (got == want_nargs and type(got) is type(want_nargs)))
+    ctx.oblige("post", "metavar-names-the-accepted-words-exactly-when-a-value-is-taken" + tag, kw.get("metavar", "missing") == ("{true,yes,false,no}" if d["nargs"] in (1, "?") else None))
+    ctx.oblige("post", "default-is-False-unless-one-is-given" + tag, (kw.get("default", "missing") is False) if d["default"] is None else (kw.get("default") is d["default"]))
+    ctx.oblige("post", "values-are-checked-by-the-boolean-checker;dest-kept;the-private-keywords-do-not-reach-argparse" + tag,
+               kw.get("type") is BOOLEAN_TYPE and kw.get("dest") == "flag" and not any(k.startswith("_") for k in kw) and set(kw) <= {"option_strings", "dest", "nargs", "metavar", "default", "type"})
+
+
+def yi_raises(ctx, st, exc):
+    d = st.data
+    tag = _yi_tag(d)
+    if exc.cls != "ValueError" or not exc.origin.startswith("raise@") or d["mode"] == 1:
+        ctx.oblige("raises", f"only-ValueError(got {exc.cls}@{exc.origin})" + tag, False)
+        return
+    bad_prefix = z3.Not(z3.PrefixOf(z3.Concat(S_("--"), lift(d["yes"])), d["opt"]))
+    ctx.oblige("raises", "refused=>positional,or-the-option-lacks-'--'+yes_prefix,or-no_prefix=None-with-nargs-other-than-1" + tag,
+               z3.Or(z3.BoolVal(d["positional"]), bad_prefix, z3.BoolVal(d["no"] is None and d["nargs"] not in ("absent", 1))), strings=True)
+    ctx.oblige("frame", "refused=>argparse's-initialiser-did-not-run" + tag, d["inited"] == [])
+
+
+LOWER = z3.Function("py.str.lower", z3.StringSort(), z3.StringSort())
+BT_VALUES = ["any-string", "any-bool", "any-int", "None", "float", "list", "True", "tRuE", "YES", "No", "FALSE", "", "1", "on", " true", "truee"]
+
+
+def bt_setup(ctx, via_check_type=False):
+    kind = BT_VALUES[ctx.choose(len(BT_VALUES), "value")]
+    x = {"any-string": z3.String("x"), "any-bool": z3.Bool("b"), "any-int": z3.Int("n"), "None": None, "float": 1.0, "list": ["true"]}.get(kind, kind)
+    # str.lower: CPython's own for a concrete string, an uninterpreted function of the string for a symbolic one (the contract is stated through it)
+    calls = {"x.lower": lambda c, a, k: x.lower() if isinstance(x, str) else LOWER(x)}
+    return Setup(env={"x": x}, calls=calls, data=dict(kind=kind, x=x), watch={"x": x} if is_z3(x) else {})
+
+
+def _bt_low(d):
+    x = d["x"]
+    if isinstance(x, str):
+        return S_(x.lower())
+    if is_z3(x) and x.sort() == z3.StringSort():
+        return LOWER(x)
+    return None
+
+
+def bt_post(ctx, st, result):
+    d = st.data
+    tag = f"[{d['kind']}]"
+    low = _bt_low(d)
+    x = d["x"]
+    if low is not None:
+        ok_t = z3.Or(low == S_("true"), low == S_("yes"))
+        ok_f = z3.Or(low == S_("false"), low == S_("no"))
+        r = lift(result) if isinstance(result, bool) or (is_z3(result) and result.sort() == z3.BoolSort()) else None
+        ctx.oblige("post", "a-text-is-accepted-only-as-true|yes|false|no(any case)" + tag, z3.Or(ok_t, ok_f) if r is not None else False, strings=True)
+        if r is not None:
+            ctx.oblige("post", "true|yes->True,false|no->False" + tag, z3.And(z3.Implies(ok_t, r), z3.Implies(ok_f, z3.Not(r))), strings=True)
+    else:
+        ctx.oblige("post", "a-non-text-is-accepted-only-if-it-is-a-bool,and-returned-as-it-is" + tag, d["kind"] == "any-bool" and result is x)
+
+
+def bt_raises(ctx, st, exc):
+    d = st.data
+    tag = f"[{d['kind']}]"
+    low = _bt_low(d)
+    ctx.oblige("raises", f"only-TypeError(got {exc.cls}@{exc.origin})" + tag, exc.cls == "TypeError" and exc.origin.startswith("raise@"))
+    if low is not None:
+        ctx.oblige("raises", "a-text-is-refused-only-if-it-is-none-of-true|yes|false|no(any case)" + tag, z3.And(*[low != S_(w) for w in ("true", "yes", "false", "no")]), strings=True)
+    else:
+        ctx.oblige("raises", "a-non-text-is-refused-only-if-it-is-no-bool" + tag, d["kind"] != "any-bool")
+
+
+def yct_setup(ctx):
+    value = Rec("value")
+    outcome = ctx.choose(2, "checker-accepts/refuses")
+    res = Rec("checked")
+    seen = []
+
+    def checker(c, a, k):
+        seen.append((a, dict(k)))
+        if outcome == 1:
+            raise PyRaise(ExcVal("TypeError", origin="_boolean_type"))
+        return res
+
+    self = Rec("ActionYesNo", attrs={"dest": "flag"})
+    return Setup(env={"self": self, "value": value}, calls={"ActionYesNo._boolean_type": checker, "self._boolean_type": checker}, data=dict(value=value, res=res, seen=seen, outcome=outcome))
+
+
+def yct_post(ctx, st, result):
+    d = st.data
+    ctx.oblige("post", "the-result-of-the-boolean-checker-for-exactly-the-value-given", result is d["res"] and len(d["seen"]) == 1 and len(d["seen"][0][0]) == 1 and d["seen"][0][0][0] is d["value"] and d["seen"][0][1] == {} and d["outcome"] == 0)
+
+
+def yct_raises(ctx, st, exc):
+    d = st.data
+    ctx.oblige("raises", f"only-the-checker's-TypeError(got {exc.cls}@{exc.origin})", exc.cls == "TypeError" and exc.origin == "_boolean_type" and d["outcome"] == 1)
+
+
+# ================================================================================================ ActionConfigFile
+def _super_init(inited):
+    return lambda c, a, k: Rec("super()", methods={"__init__": lambda c2, s2, a2, k2: inited.append((a2, dict(k2)))})
+
+
+def cf_setup(ctx):
+    shape = ["one-option", "two-options", "positional"][ctx.choose(3, "option-strings")]
+    has_default = ctx.choose(2, "default-given") == 1
+    has_help = ctx.choose(2, "help-given") == 1
+    o1, o2 = z3.String("opt1"), z3.String("opt2")
+    opts = {"one-option": [o1], "two-options": [o1, o2], "positional": []}[shape]
+    kwargs = {"option_strings": list(opts), "dest": "cfg"}
+    if has_default:
+        kwargs["default"] = Rec("default")
+    if has_help:
+        kwargs["help"] = "my help"
+    inited = []
+
+    def sde(c, a, k):
+        raise PyRaise(ExcVal("ValueError", origin="set_default_error"))
+
+    return Setup(env={"self": Rec("ActionConfigFile"), "kwargs": kwargs}, calls={"super": _super_init(inited), "self.set_default_error": sde},
+                 data=dict(shape=shape, has_default=has_default, has_help=has_help, opts=opts, inited=inited), watch={"opt1": o1, "opt2": o2})
+
+
+def _cf_naming(d):
+    """The option that names the dest (argparse: the first long option, the only option otherwise) - None if there is none."""
+    o = d["opts"]
+    if d["shape"] == "one-option":
+        return [(True, o[0])]
+    if d["shape"] == "two-options":
+        l1 = z3.PrefixOf(S_("--"), o[0])
+        l2 = z3.PrefixOf(S_("--"), o[1])
+        return [(l1, o[0]), (z3.And(z3.Not(l1), l2), o[1])]
+    return []
+
+
+def cf_post(ctx, st, result):
+    d = st.data
+    tag = f"[{d['shape']},default:{d['has_default']},help:{d['has_help']}]"
+    ctx.oblige("post", "accepted=>no-default-was-given" + tag, not d["has_default"])
+    ctx.oblige("post", "accepted=>an-option-(not a positional)-whose-dest-naming-option-string-has-no-dot(a top level option)" + tag,
+               z3.Or(*[z3.And(zc, z3.Not(z3.Contains(o, S_(".")))) for zc, o in [(z3.BoolVal(c) if isinstance(c, bool) else c, o) for c, o in _cf_naming(d)]]) if _cf_naming(d) else False, strings=True)
+    ok = len(d["inited"]) == 1 and d["inited"][0][0] == ()
+    ctx.oblige("post", "argparse's-initialiser-runs-once-with-keywords-only" + tag, ok)
+    if ok:
+        kw = d["inited"][0][1]
+        ctx.oblige("post", "the-declaration-is-passed-on-unchanged;a-help-text-is-supplied-only-when-none-was-given" + tag,
+                   set(kw) == {"option_strings", "dest", "help"} and kw["dest"] == "cfg" and len(kw["option_strings"]) == len(d["opts"]) and all(x is y for x, y in zip(kw["option_strings"], d["opts"]))
+                   and (kw["help"] == "my help" if d["has_help"] else isinstance(kw["help"], str) and kw["help"] != ""))
+
+
+def cf_raises(ctx, st, exc):
+    d = st.data
+    tag = f"[{d['shape']},default:{d['has_default']},help:{d['has_help']}]"
+    ctx.oblige("raises", f"a-declaration-is-refused-with-ValueError-only(got {exc.cls}@{exc.origin})" + tag, exc.cls == "ValueError",
+               note="a positional, or several option strings none of which is a long one, ends in IndexError")
+    if exc.cls == "ValueError":
+        dotted = [z3.And(z3.BoolVal(c) if isinstance(c, bool) else c, z3.Contains(o, S_("."))) for c, o in _cf_naming(d)]
+        ctx.oblige("raises", "refused=>a-default-was-given-or-the-dest-naming-option-has-a-dot" + tag, z3.Or(z3.BoolVal(d["has_default"] and exc.origin == "set_default_error"), *dotted), strings=True)
+        ctx.oblige("frame", "refused=>argparse's-initialiser-did-not-run" + tag, d["inited"] == [])
+
+
+def cfc_setup(ctx):
+    outcome = ctx.choose(2, "apply_config-succeeds/fails")
+    seen = []
+    parser, cfg, values = Rec("ArgumentParser", attrs={"t": 1}), Rec("Namespace", attrs={"t": 2}), z3.String("value")
+    dest = z3.String("dest")
+    self = Rec("ActionConfigFile", attrs={"dest": dest})
+
+    def apply_config(c, a, k):
+        seen.append((a, dict(k)))
+        if outcome == 1:
+            raise PyRaise(ExcVal("TypeError", origin="apply_config"))
+        return None
+
+    with_opt = ctx.choose(2, "option_string-given") == 1
+    env = {"self": self, "parser": parser, "cfg": cfg, "values": values}
+    if with_opt:
+        env["option_string"] = "--cfg"
+    return Setup(env=env, calls={"self.apply_config": apply_config, "ActionConfigFile.apply_config": apply_config}, data=dict(seen=seen, parser=parser, cfg=cfg, values=values, dest=dest, self=self, outcome=outcome))
+
+
+def _cfc_common(ctx, d):
+    s_ = d["seen"]
+    ctx.oblige("post", "the-config-is-applied-once-with-(the parser in use, the namespace being filled, the action's own dest, the value given)",
+               len(s_) == 1 and s_[0][1] == {} and len(s_[0][0]) == 4 and s_[0][0][0] is d["parser"] and s_[0][0][1] is d["cfg"] and s_[0][0][2] is d["dest"] and s_[0][0][3] is d["values"])
+    ctx.oblige("frame", "the-action-writes-nothing-itself(parser, namespace and action as they were)", d["parser"].attrs == {"t": 1} and d["cfg"].attrs == {"t": 2} and d["self"].attrs == {"dest": d["dest"]} and not ctx.mutlog)
+
+
+def cfc_post(ctx, st, result):
+    _cfc_common(ctx, st.data)
+    ctx.oblige("post", "returns-nothing;a-normal-return-means-apply_config-succeeded", result is None and st.data["outcome"] == 0)
+
+
+def cfc_raises(ctx, st, exc):
+    _cfc_common(ctx, st.data)
+    ctx.oblige("raises", f"only-the-TypeError-of-apply_config(got {exc.cls}@{exc.origin})", exc.cls == "TypeError" and exc.origin == "apply_config" and st.data["outcome"] == 1)
+
+
+def sde_post(ctx, st, result):
+    ctx.oblige("post", "a-default-for-a-config-argument-is-never-accepted(always raises)", False)
+
+
+def sde_raises(ctx, st, exc):
+    ctx.oblige("raises", f"ValueError(got {exc.cls})", exc.cls == "ValueError" and exc.origin.startswith("raise@"))
+
+
+ESC_ACTIONS = ["any-string", "'config'", "class ActionConfigFile", "class MyConfigFile", "class ActionYesNo", "ActionParser instance", "None"]
+ESC_MEMBERS = ["ActionTypeHint", "ActionConfigFile", "MyConfigFile", "_HelpAction"]
+
+
+def esc_setup(ctx):
+    _classes(ctx)
+    kind = ESC_ACTIONS[ctx.choose(len(ESC_ACTIONS), "action")]
+    n = ctx.choose(3, "declared-actions")
+    members = [Rec(ESC_MEMBERS[ctx.choose(len(ESC_MEMBERS), f"declared[{i}]")], attrs={"dest": f"d{i}"}) for i in range(n)]
+    action = {"any-string": z3.String("action"), "'config'": "config", "class ActionConfigFile": ClassRef("ActionConfigFile"), "class MyConfigFile": ClassRef("MyConfigFile"),
+              "class ActionYesNo": ClassRef("ActionYesNo"), "ActionParser instance": Rec("ActionParser", attrs={}), "None": None}[kind]
+
+    def is_subclass(c, a, k):
+        ok = isinstance(a[0], ClassRef) and isinstance(a[1], ClassRef) and c.classes.is_subclass(a[0].name, a[1].name)
+        c.event("is_subclass", a[1].name if isinstance(a[1], ClassRef) else a[1])
+        return ok
+
+    container = Rec("ArgumentParser", attrs={"_actions": list(members)})
+    return Setup(env={"container": container, "action": action}, calls={"is_subclass": is_subclass}, data=dict(kind=kind, members=members, action=action, container=container), watch={"action": action} if is_z3(action) else {})
+
+
+def _esc_facts(d):
+    has = any(m.cls in ("ActionConfigFile", "MyConfigFile") for m in d["members"])
+    a = d["action"]
+    is_cfg = (a == S_("config")) if is_z3(a) else z3.BoolVal(d["kind"] in ("'config'", "class ActionConfigFile", "class MyConfigFile"))
+    return has, is_cfg, f"[{d['kind']};declared:{','.join(m.cls for m in d['members']) or 'none'}]"
+
+
+def esc_post(ctx, st, result):
+    has, is_cfg, tag = _esc_facts(st.data)
+    ctx.oblige("post", "accepted=>not(a config argument is being added to a container that already has one)" + tag, z3.Not(z3.And(is_cfg, z3.BoolVal(has))), strings=True)
+    ctx.oblige("frame", "nothing-is-modified" + tag, not ctx.mutlog and len(st.data["container"].attrs["_actions"]) == len(st.data["members"]))
+
+
+def esc_raises(ctx, st, exc):
+    has, is_cfg, tag = _esc_facts(st.data)
+    ctx.oblige("raises", "refused=>ValueError,and-a-second-config-argument-(action='config' or an ActionConfigFile class)-was-being-added" + tag,
+               z3.And(z3.BoolVal(exc.cls == "ValueError" and exc.origin.startswith("raise@") and has), is_cfg), strings=True)
+
+
+APC_ACTIONS = ["ActionConfigFile", "MyConfigFile", "ActionTypeHint", "_ActionConfigLoad"]
+APC_NAMES = ["attribute-missing", None, "--print_config", "--print_%s", "--%s.print"]
+
+
+def apc_setup(ctx):
+    _classes(ctx)
+    kind = APC_ACTIONS[ctx.choose(len(APC_ACTIONS), "action-just-added")]
+    name = APC_NAMES[ctx.choose(len(APC_NAMES), "print_config-name")]
+    added = []
+    attrs = {"_actions": []}
+    if name != "attribute-missing":
+        attrs["_print_config"] = name
+    container = Rec("ArgumentParser", attrs=attrs, methods={"add_argument": lambda c, s_, a, k: added.append((a, dict(k)))})
+    action = Rec(kind, attrs={"dest": "conf"})
+    return Setup(env={"container": container, "action": action}, data=dict(kind=kind, name=name, added=added, container=container, action=action))
+
+
+def apc_post(ctx, st, result):
+    d = st.data
+    tag = f"[{d['kind']},{d['name']}]"
+    wanted = d["kind"] in ("ActionConfigFile", "MyConfigFile") and d["name"] not in ("attribute-missing", None)
+    if not wanted:
+        ctx.oblige("post", "no-print-config-option-without-a-config-argument-or-when-disabled(None)" + tag, d["added"] == [] and d["container"].attrs.get("_print_config", "attribute-missing") == d["name"])
+    else:
+        final = d["name"].replace("%s", "conf")
+        ok = len(d["added"]) == 1 and d["added"][0][0] == (final,) and set(d["added"][0][1]) == {"action"} and isinstance(d["added"][0][1]["action"], ClassRef) and d["added"][0][1]["action"].name == "_ActionPrintConfig"
+        ctx.oblige("post", "exactly-one-print-config-option-is-declared,named-as-configured-with-%s-replaced-by-the-config-argument's-dest,with-the-print-config-action" + tag, ok)
+        ctx.oblige("post", "the-container-remembers-the-final-option-name(parse_known_args recognises it by that name)" + tag, d["container"].attrs.get("_print_config") == final)
+    ctx.oblige("frame", "the-action-just-added-is-not-modified" + tag, d["action"].attrs == {"dest": "conf"})
+
+
+# ================================================================================================ _ActionConfigLoad
+SUPPRESS = "==SUPPRESS=="
+
+
+def cl_setup(ctx):
+    mode = ctx.choose(2, "declared-with-keywords/configured-as-a-factory")
+    inited = []
+    self = Rec("_ActionConfigLoad")
+    bt = Rec("basetype")
+    calls = {"super": _super_init(inited)}
+    consts = {"SUPPRESS": SUPPRESS, "default_config_option_help": "help text"}
+    if mode == 1:
+        given = ctx.choose(2, "basetype-given") == 1
+        env = {"self": self, "kwargs": {}}
+        if given:
+            env["basetype"] = bt
+        return Setup(env=env, calls=calls, consts=consts, data=dict(mode=mode, self=self, inited=inited, bt=bt if given else None))
+    with_bt = ctx.choose(2, "_basetype-keyword-present") == 1
+    opt = z3.String("option")
+    kwargs = {"option_strings": [opt], "dest": "group"}
+    if with_bt:
+        kwargs["_basetype"] = bt
+    return Setup(env={"self": self, "kwargs": kwargs}, calls=calls, consts=consts, data=dict(mode=mode, self=self, inited=inited, bt=bt if with_bt else None, opt=opt))
+
+
+def cl_post(ctx, st, result):
+    d = st.data
+    a = d["self"].attrs
+    if d["mode"] == 1:
+        ctx.oblige("post", "factory:keeps-the-base-type-and-declares-nothing", d["inited"] == [] and set(a) == {"_basetype"} and a["_basetype"] is d["bt"])
+        return
+    ok = len(d["inited"]) == 1 and d["inited"][0][0] == ()
+    ctx.oblige("post", "argparse's-initialiser-runs-once-with-keywords-only", ok)
+    if ok:
+        kw = d["inited"][0][1]
+        ctx.oblige("post", "the-whole-group-option-has-no-default-of-its-own(SUPPRESS:the group's values come from its members)", kw.get("default", "missing") == SUPPRESS)
+        ctx.oblige("post", "option-strings-and-dest-are-passed-on;the-private-keyword-does-not-reach-argparse", set(kw) == {"option_strings", "dest", "metavar", "help", "default"} and kw["dest"] == "group" and len(kw["option_strings"]) == 1 and kw["option_strings"][0] is d["opt"])
+    ctx.oblige("post", "the-base-type-handed-over-by-the-factory-is-kept", a.get("basetype", a.get("_basetype", "missing")) is d["bt"])
+
+
+def clc_setup(ctx):
+    outcome = ctx.choose(2, "_load_config-succeeds/fails")
+    seen = []
+    res, value, parser = Rec("loaded"), z3.String("value"), Rec("ArgumentParser", attrs={"t": 1})
+
+    def load(c, a, k):
+        seen.append((a, dict(k)))
+        if outcome == 1:
+            raise PyRaise(ExcVal("TypeError", origin="_load_config"))
+        return res
+
+    self = Rec("_ActionConfigLoad", attrs={"dest": "group"})
+    return Setup(env={"self": self, "value": value, "parser": parser}, calls={"self._load_config": load}, data=dict(seen=seen, res=res, value=value, parser=parser, outcome=outcome, self=self))
+
+
+def _clc_common(ctx, d):
+    s_ = d["seen"]
+    args = list(s_[0][0]) if len(s_) == 1 else []
+    kw = s_[0][1] if len(s_) == 1 else {}
+    val = args[0] if args else kw.get("value")
+    par = args[1] if len(args) > 1 else kw.get("parser")
+    ctx.oblige("post", "the-value-is-loaded-once-as-a-config-of-this-group,with-the-parser-given", len(s_) == 1 and val is d["value"] and par is d["parser"] and len(args) + len(kw) == 2)
+    ctx.oblige("frame", "nothing-is-written(action and parser as they were)", d["self"].attrs == {"dest": "group"} and d["parser"].attrs == {"t": 1})
+
+
+def clc_post(ctx, st, result):
+    _clc_common(ctx, st.data)
+    ctx.oblige("post", "returns-the-loaded-config", result is st.data["res"] and st.data["outcome"] == 0)
+
+
+def clc_raises(ctx, st, exc):
+    _clc_common(ctx, st.data)
+    ctx.oblige("raises", f"an-invalid-value-is-refused-with-the-TypeError-of-_load_config-only(got {exc.cls}@{exc.origin})", exc.cls == "TypeError" and exc.origin == "_load_config" and st.data["outcome"] == 1)
+
+
+# ================================================================================================ Action._check_type_
+CT_ACCEPTS = [(), ("cfg",), ("append", "cfg"), ("cfg", "append", "prev_val")]
+CT_GIVEN = [(), ("cfg",), ("append",), ("append", "cfg")]
+
+
+def ct_setup(ctx):
+    accepts = CT_ACCEPTS[ctx.choose(len(CT_ACCEPTS), "keywords-the-checker-accepts")]
+    given = CT_GIVEN[ctx.choose(len(CT_GIVEN), "keywords-given")]
+    cached = ctx.choose(2, "signature-already-cached") == 1
+    outcome = ctx.choose(3, "checker:accepts/TypeError/ValueError")
+    value, res = Rec("value"), Rec("checked-value")
+    vals = {"cfg": Rec("cfg"), "append": z3.Bool("append")}
+    seen, sigs = [], []
+
+    def checker(c, s_, a, k):
+        seen.append((a, dict(k)))
+        if outcome:
+            raise PyRaise(ExcVal(["", "TypeError", "ValueError"][outcome], origin="_check_type"))
+        return res
+
+    def signature(c, a, k):
+        sigs.append(a)
+        return Rec("Signature", attrs={"parameters": Rec("mappingproxy", methods={"keys": lambda c2, s2, a2, k2: ["value"] + list(accepts)})})
+
+    self = Rec("ActionTypeHint", attrs={"dest": "x"}, methods={"_check_type": checker})
+    if cached:
+        self.attrs["_check_type_kwargs"] = set(("value",) + accepts)
+    return Setup(env={"self": self, "value": value, "kwargs": {g: vals[g] for g in given}}, calls={"inspect.signature": signature},
+                 data=dict(accepts=accepts, given=given, cached=cached, outcome=outcome, value=value, res=res, vals=vals, seen=seen, self=self))
+
+
+def _ct_common(ctx, d):
+    tag = f"[accepts:{','.join(d['accepts']) or 'none'};given:{','.join(d['given']) or 'none'};{'cached' if d['cached'] else 'first call'}]"
+    s_ = d["seen"]
+    ctx.oblige("post", "the-checker-runs-once-on-exactly-the-value-given(only positional argument)" + tag, len(s_) == 1 and len(s_[0][0]) == 1 and s_[0][0][0] is d["value"])
+    if len(s_) == 1:
+        want = {g: d["vals"][g] for g in d["given"] if g in d["accepts"]}
+        kw = s_[0][1]
+        ctx.oblige("post", "it-gets-exactly-the-given-keywords-it-accepts(none it does not know,none dropped),with-their-values" + tag, set(kw) == set(want) and all(kw[g] is want[g] for g in want))
+    a = d["self"].attrs
+    ctx.oblige("frame", "only-the-signature-cache-is-written-on-the-action,and-it-holds-the-checker's-parameter-names" + tag,
+               set(a) == {"dest", "_check_type_kwargs"} and a["dest"] == "x" and a["_check_type_kwargs"] == set(("value",) + d["accepts"]))
+    return tag
+
+
+def ct_post(ctx, st, result):
+    tag = _ct_common(ctx, st.data)
+    ctx.oblige("post", "returns-what-the-checker-returns" + tag, result is st.data["res"] and st.data["outcome"] == 0)
+
+
+def ct_raises(ctx, st, exc):
+    d = st.data
+    tag = _ct_common(ctx, d)
+    ctx.oblige("raises", f"only-the-checker's-own-TypeError/ValueError(got {exc.cls}@{exc.origin})" + tag, d["outcome"] != 0 and exc.cls == ["", "TypeError", "ValueError"][d["outcome"]] and exc.origin == "_check_type")
+
+
+# ================================================================================================ _ActionPrintConfig
+def pci_setup(ctx):
+    inited = []
+    opts = [z3.String("option")]
+    given = ctx.choose(2, "dest/default-left-to-their-defaults/given-by-argparse") == 1
+    env = {"self": Rec("_ActionPrintConfig"), "option_strings": opts}
+    if given:
+        env.update({"dest": SUPPRESS, "default": SUPPRESS})
+    return Setup(env=env, calls={"super": _super_init(inited)}, consts={"SUPPRESS": SUPPRESS}, data=dict(inited=inited, opts=opts))
+
+
+def pci_post(ctx, st, result):
+    d = st.data
+    ok = len(d["inited"]) == 1 and d["inited"][0][0] == ()
+    ctx.oblige("post", "argparse's-initialiser-runs-once-with-keywords-only", ok)
+    if ok:
+        kw = d["inited"][0][1]
+        ctx.oblige("post", "the-option-never-writes-to-the-namespace:dest-and-default-are-suppressed", kw.get("dest") == SUPPRESS and kw.get("default") == SUPPRESS)
+        ctx.oblige("post", "the-declared-option-strings;exactly-one-value(the flags)", kw.get("option_strings") is d["opts"] and kw.get("nargs") == 1 and type(kw.get("nargs")) is int)
+        ctx.oblige("post", "no-type/choices/required-are-imposed", set(kw) == {"option_strings", "dest", "default", "nargs", "metavar", "help"})
+
+
+def pcr_setup(ctx):
+    depth = 1 + ctx.choose(3, "ancestors")
+    mask = ctx.choose(2 ** depth, "which-hold-a-request")
+    chain = []
+    for i in range(depth):
+        attrs = {"tag": i}
+        if mask >> i & 1:
+            attrs["print_config"] = {"key": None}
+        chain.append(Rec("ArgumentParser", attrs=attrs))
+    for i in range(depth - 1):
+        chain[i].attrs["parent_parser"] = chain[i + 1]
+    none_root = ctx.choose(2, "root-has-parent_parser=None") == 1
+    if none_root:
+        chain[-1].attrs["parent_parser"] = None
+    snap = [dict(p.attrs) for p in chain]
+    return Setup(env={"parser": chain[0]}, data=dict(chain=chain, mask=mask, depth=depth, snap=snap))
+
+
+def pcr_post(ctx, st, result):
+    d = st.data
+    tag = f"[depth {d['depth']},requests {d['mask']:b}]"
+    ctx.oblige("post", "true-exactly-when-the-parser-or-one-of-its-ancestors-holds-a-pending-request" + tag, result is (d["mask"] != 0))
+    ctx.oblige("frame", "no-parser-is-modified(the request stays where it is)" + tag, [dict(p.attrs) for p in d["chain"]] == d["snap"] and not ctx.mutlog)
+
+
+# ================================================================================================ _ActionHelpClassPath
+def hi_setup(ctx):
+    mode = ctx.choose(2, "declared-with-keywords/configured-as-a-factory")
+    inited, updated = [], []
+    th = Rec("typehint")
+    self = Rec("_ActionHelpClassPath")
+    calls = {"super": _super_init(inited)}
+
+    def update(c, a, k):
+        updated.append((a[0], dict(a[0])))
+        a[0]["nargs"] = "?"
+        a[0]["default"] = SUPPRESS
+
+    calls["self.update_init_kwargs"] = update
+    if mode == 1:
+        return Setup(env={"self": self, "typehint": th, "kwargs": {}}, calls=calls, data=dict(mode=mode, th=th, self=self, inited=inited, updated=updated))
+    opt = z3.String("option")
+    kwargs = {"option_strings": [opt], "dest": "model.help", "_typehint": th}
+    return Setup(env={"self": self, "kwargs": kwargs}, calls=calls, data=dict(mode=mode, th=th, self=self, inited=inited, updated=updated, opt=opt, kwargs=kwargs))
+
+
+def hi_post(ctx, st, result):
+    d = st.data
+    a = d["self"].attrs
+    ctx.oblige("post", "the-type-hint-given-is-kept", a.get("_typehint") is d["th"] and set(a) == {"_typehint"})
+    if d["mode"] == 1:
+        ctx.oblige("post", "factory:declares-nothing", d["inited"] == [] and d["updated"] == [])
+        return
+    ok = len(d["inited"]) == 1 and d["inited"][0][0] == () and len(d["updated"]) == 1
+    ctx.oblige("post", "the-keywords-are-completed-once,then-argparse's-initialiser-runs-once-with-them", ok)
+    if ok:
+        kw = d["inited"][0][1]
+        ctx.oblige("post", "the-completed-keywords-reach-argparse(default suppressed: the help option stores nothing);the-private-keyword-does-not", kw.get("default") == SUPPRESS and kw.get("nargs") == "?" and "_typehint" not in kw and "_typehint" not in d["updated"][0][1]
+                   and kw.get("dest") == "model.help" and kw.get("option_strings")[0] is d["opt"] and set(kw) == {"option_strings", "dest", "nargs", "default"})
+
+
+def hc_setup(ctx):
+    _classes(ctx)
+    ctx.classes.add("MyHelpClassPath", ["_ActionHelpClassPath"])
+    cls = ["_ActionHelpClassPath", "MyHelpClassPath"][ctx.choose(2, "class-of-the-action")]
+    mode = ctx.choose(2, "called-by-argparse/as-a-factory")
+    th = Rec("typehint")
+    self = Rec(cls, attrs={"_typehint": th, "dest": "model.help"})
+    made, printed = [], []
+    outcome = ctx.choose(3, "print_help:exits/ArgumentError/TypeError") if mode == 0 else 0
+
+    def ctor(name):
+        return lambda c, a, k: (made.append((name, a, dict(k))), Rec(name, attrs={"made": True}))[1]
+
+    def print_help(c, a, k):
+        printed.append((a, dict(k)))
+        raise PyRaise(ExcVal(["SystemExit", "ArgumentError", "TypeError"][outcome], origin="print_help"))
+
+    calls = {"_ActionHelpClassPath": ctor("_ActionHelpClassPath"), "MyHelpClassPath": ctor("MyHelpClassPath"), "self.print_help": print_help}
+    parser, ns = Rec("ArgumentParser", attrs={"args": ["--model.help", "X"]}), Rec("Namespace", attrs={})
+    if mode == 1:
+        kwargs = {"option_strings": ["--model.help"], "dest": "model.help"}
+        return Setup(env={"self": self, "args": (), "kwargs": kwargs}, calls=calls, data=dict(mode=mode, cls=cls, th=th, self=self, made=made, printed=printed))
+    args = (parser, ns, "X", "--model.help")
+    return Setup(env={"self": self, "args": args, "kwargs": {}}, calls=calls, data=dict(mode=mode, cls=cls, th=th, self=self, made=made, printed=printed, args=args, parser=parser, ns=ns, outcome=outcome))
+
+
+def _hc_frame(ctx, d):
+    ctx.oblige("frame", "the-action-is-not-modified", d["self"].attrs == {"_typehint": d["th"], "dest": "model.help"} and d["self"].attrs["_typehint"] is d["th"])
+
+
+def hc_post(ctx, st, result):
+    d = st.data
+    _hc_frame(ctx, d)
+    if d["mode"] == 0:
+        ctx.oblige("post", "a-call-by-argparse-ends-the-way-print_help-ends(it never returns)", False)
+        return
+    ok = len(d["made"]) == 1 and d["made"][0][1] == () and isinstance(result, Rec) and result.attrs.get("made") is True
+    ctx.oblige("post", "factory:returns-one-new-action", ok and d["printed"] == [])
+    if ok:
+        name, _, kw = d["made"][0]
+        ctx.oblige("post", f"factory:of-the-same-class-as-the-configured-one[{d['cls']}]", name == d["cls"])
+        ctx.oblige("post", "factory:with-the-declaration-keywords-unchanged-plus-the-configured-type-hint", kw.get("_typehint") is d["th"] and {k: v for k, v in kw.items() if k != "_typehint"} == {"option_strings": ["--model.help"], "dest": "model.help"})
+
+
+def hc_raises(ctx, st, exc):
+    d = st.data
+    _hc_frame(ctx, d)
+    if d["mode"] == 1:
+        ctx.oblige("raises", f"factory:no-exception(got {exc.cls}@{exc.origin})", False)
+        return
+    p = d["printed"]
+    ctx.oblige("post", "the-help-is-produced-once-from-exactly-argparse's-call-arguments(parser, namespace, value, option string)",
+               len(p) == 1 and p[0][1] == {} and len(p[0][0]) == 1 and isinstance(p[0][0][0], tuple) and len(p[0][0][0]) == 4 and all(x is y for x, y in zip(p[0][0][0], d["args"])) and d["made"] == [])
+    ctx.oblige("raises", f"only-what-print_help-raises(got {exc.cls}@{exc.origin})", exc.origin == "print_help" and exc.cls == ["SystemExit", "ArgumentError", "TypeError"][d["outcome"]])
+    ctx.oblige("frame", "__call__-itself-writes-nothing-on-the-parser-or-the-namespace", d["parser"].attrs == {"args": ["--model.help", "X"]} and d["ns"].attrs == {} and not ctx.mutlog)
+
+
+UNION = Rec("typing.Union")
+
+
+def hu_setup(ctx):
+    is_union = ctx.choose(2, "type-hint-is-a-Union") == 1
+    nbases = 1 + ctx.choose(2, "base-classes")
+    protos = ctx.choose(2 ** nbases, "which-bases-are-protocols")
+    th = Rec("typehint", attrs={"t": 1})
+    inner = Rec("typehint-without-Optional", attrs={"t": 2})
+    bases = tuple(Rec(f"class Base{i}", attrs={"protocol": bool(protos >> i & 1)}) for i in range(nbases))
+    log = []
+
+    def rec(name, fn):
+        def m(c, a, k):
+            log.append((name, a, dict(k)))
+            return fn(a, k)
+        return m
+
+    calls = {
+        "get_optional_arg": rec("get_optional_arg", lambda a, k: inner if a[0] is th else Rec("?")),
+        "get_unaliased_type": rec("get_unaliased_type", lambda a, k: a[0]),
+        "get_typehint_origin": rec("get_typehint_origin", lambda a, k: UNION if (is_union and a[0] is inner) else Rec("origin")),
+        "get_subclass_names": rec("get_subclass_names", lambda a, k: ("Base0", "Base1")[:nbases]),
+        "get_subclass_types": rec("get_subclass_types", lambda a, k: bases if a[0] is inner else ()),
+        "iter_to_set_str": rec("iter_to_set_str", lambda a, k: "{" + ",".join(a[0]) + "}"),
+        "is_protocol": rec("is_protocol", lambda a, k: a[0].attrs["protocol"]),
+    }
+    opt = z3.String("option")
+    kwargs = {"option_strings": [opt], "dest": "model.help"}
+    self = Rec("_ActionHelpClassPath", attrs={"_typehint": th})
+    return Setup(env={"self": self, "kwargs": kwargs}, calls=calls, consts={"Union": UNION, "SUPPRESS": SUPPRESS},
+                 data=dict(is_union=is_union, nbases=nbases, protos=protos, th=th, inner=inner, bases=bases, kwargs=kwargs, self=self, opt=opt, log=log))
+
+
+def hu_post(ctx, st, result):
+    d = st.data
+    kw, a = d["kwargs"], d["self"].attrs
+    tag = f"[{'Union' if d['is_union'] else 'single type'},{d['nbases']} bases,protocols {d['protos']:b}]"
+    ctx.oblige("post", "the-help-option-stores-nothing:default-suppressed" + tag, kw.get("default") == SUPPRESS)
+    ctx.oblige("post", "the-class-name-is-optional-for-a-single-type(nargs '?'),required-for-a-Union(nargs untouched)" + tag, kw.get("nargs", "absent") == ("absent" if d["is_union"] else "?"))
+    ctx.oblige("post", "the-declaration-keywords-are-kept;only-nargs,metavar,default,help-are-added" + tag,
+               kw.get("dest") == "model.help" and isinstance(kw.get("option_strings"), list) and len(kw["option_strings"]) == 1 and kw["option_strings"][0] is d["opt"] and set(kw) - {"nargs"} == {"option_strings", "dest", "metavar", "default", "help"})
+    ctx.oblige("post", "the-accepted-base-classes-are-those-of-the-type-hint-without-Optional" + tag, a.get("_baseclasses") is d["bases"])
+    ctx.oblige("post", "the-wording-names-protocols-exactly-when-a-base-is-one" + tag, a.get("_kind") == ("subclass or implementer of protocol" if d["protos"] else "subclass of"))
+    ctx.oblige("frame", "only-_basename/_baseclasses/_kind-are-written-on-the-action;the-type-hints-are-not-modified" + tag,
+               set(a) == {"_typehint", "_basename", "_baseclasses", "_kind"} and a["_typehint"] is d["th"] and d["th"].attrs == {"t": 1} and d["inner"].attrs == {"t": 2} and all(set(b.attrs) == {"protocol"} for b in d["bases"]))
+
+
+GA_OPT = "--model.help"
+GA_FAMILY = [GA_OPT, GA_OPT + "=Cls", GA_OPT + "=a=b", GA_OPT + "=", GA_OPT + "x", GA_OPT + "x=1", "--other=" + GA_OPT, "word", "=", ""]
+
+
+def ga_setup(ctx):
+    """Symbolic strings for a one-argument command line; longer command lines (up to 3 arguments) over a family of concrete spellings around the option
+    (the symbolic version of the longer lines needs minutes of string solving)."""
+    if ctx.choose(2, "symbolic-one-argument-line/concrete-family") == 0:
+        opt = z3.String("opt")
+        form = ["--opt=Class", "--opt Class"][ctx.choose(2, "form")]
+        ctx.assume(z3.Not(z3.Contains(opt, S_("="))))
+        args = [z3.Concat(opt, S_("="), z3.String("class-name")) if form == "--opt=Class" else opt]
+        want = []
+    else:
+        opt = GA_OPT
+        n = 1 + ctx.choose(3, "argv-length")
+        args = [GA_FAMILY[ctx.choose(len(GA_FAMILY), f"arg{i}")] for i in range(n)]
+        hits = [i for i, a in enumerate(args) if a == opt or a.startswith(opt + "=")]
+        if not hits:
+            ctx.assume(False)  # the function is called from the option's own action: the option occurs on the command line
+        i = hits[0]
+        want = args[i + 1:] if args[i] != opt else args[i + 2:]
+    self = Rec("_ActionHelpClassPath", attrs={"option_strings": [opt], "dest": "model.help"})
+    given = list(args)
+    return Setup(env={"self": self, "args": given}, data=dict(opt=opt, args=args, given=given, self=self, want=want), watch={"opt": opt} if is_z3(opt) else {})
+
+
+def ga_post(ctx, st, result):
+    d = st.data
+    tag = f"[{'symbolic' if is_z3(d['opt']) else d['args']}]"
+    want = d["want"]
+    ctx.oblige("post", "exactly-the-arguments-after-the-first-use-of-the-help-option-(and after its value when given separately),in-order" + tag,
+               isinstance(result, list) and len(result) == len(want) and all(x is y or (isinstance(x, str) and x == y) for x, y in zip(result, want)))
+    ctx.oblige("frame", "the-parser's-argument-list-is-not-modified(a new list is returned)" + tag, result is not d["given"] and len(d["given"]) == len(d["args"]) and all(x is y for x, y in zip(d["given"], d["args"])) and not ctx.mutlog)
+
+
+# ================================================================================================ _ActionSubCommands.add_parser / parse_kwargs_context
+def addp_setup(ctx):
+    with_kw = ctx.choose(2, "keywords-given") == 1
+    name = z3.String("name")
+    self = Rec("_ActionSubCommands", attrs={"_name_parser_map": {}, "_choices_actions": [], "dest": "subcommand"})
+    return Setup(env={"self": self, "name": name, "kwargs": {"help": "h", "aliases": ("x",)} if with_kw else {}}, data=dict(self=self))
+
+
+def addp_post(ctx, st, result):
+    ctx.oblige("post", "argparse's-way-of-adding-a-subcommand-is-never-accepted(always raises)", False)
+
+
+def addp_raises(ctx, st, exc):
+    a = st.data["self"].attrs
+    ctx.oblige("raises", f"NotImplementedError(got {exc.cls})", exc.cls == "NotImplementedError" and exc.origin.startswith("raise@"))
+    ctx.oblige("frame", "no-parser-is-created-or-registered", a["_name_parser_map"] == {} and a["_choices_actions"] == [] and set(a) == {"_name_parser_map", "_choices_actions", "dest"})
+
+
+def pkc_unit(prop):
+    from contracts.ctxvars import cm_unit
+    new = Rec("new-parse-keywords")
+    return cm_unit(prop, A + "_ActionSubCommands.parse_kwargs_context", ["parse_kwargs"], lambda ctx, vs: {"kwargs": new}, lambda vs, env: {"parse_kwargs": new})
+
+
+# ================================================================================================ _common: optionals as positionals
+OP_KINDS = {  # kind -> (class, nargs, has option strings, subclass-typed, eligible as an optional)
+    "option": ("ActionTypeHint", None, True, False, True), "option-nargs-1": ("_StoreAction", 1, True, False, True), "option-nargs-?": ("ActionTypeHint", "?", True, False, False),
+    "option-nargs-+": ("ActionTypeHint", "+", True, False, False), "flag-nargs-0": ("ActionYesNo", 0, True, False, False), "positional": ("ActionTypeHint", None, False, False, "positional"),
+    "help": ("_HelpAction", 0, True, False, False), "print-config": ("_ActionPrintConfig", 1, True, False, False), "config-file": ("ActionConfigFile", None, True, False, False),
+    "group-loader": ("_ActionConfigLoad", None, True, False, False), "completion": ("ShtabAction", None, True, False, False), "subclass-typed": ("ActionTypeHint", None, True, True, False),
+}
+
+
+def op_setup(ctx):
+    from pyvc.engine import Closure, Env
+    from pyvc.units import find_function
+    _classes(ctx)
+    include = [None, False, True][ctx.choose(3, "include_positionals:default/False/True")]
+    n = ctx.choose(3, "declared-actions")
+    kinds = [list(OP_KINDS)[ctx.choose(len(OP_KINDS), f"action[{i}]")] for i in range(n)]
+    acts = []
+    for i, kd in enumerate(kinds):
+        cls, nargs, has_opt, sub, _ = OP_KINDS[kd]
+        acts.append(Rec(cls, attrs={"dest": f"d{i}", "nargs": nargs, "option_strings": [f"--d{i}"] if has_opt else [], "subclass-typed": sub}))
+    parser = Rec("ArgumentParser", attrs={"_actions": list(acts)})
+    fda = Closure(find_function("jsonargparse._actions", "filter_default_actions")[0], Env(), "filter_default_actions")
+    calls = {"ActionTypeHint.is_subclass_typehint": lambda c, a, k: (c.event("subclass?", dict(k)), a[0].attrs["subclass-typed"])[1]}
+    env = {"parser": parser}
+    if include is not None:
+        env["include_positionals"] = include
+    snap = [(a, dict(a.attrs)) for a in acts]
+    return Setup(env=env, calls=calls, consts={"filter_default_actions": fda}, data=dict(include=bool(include), kinds=kinds, acts=acts, parser=parser, snap=snap))
+
+
+def op_post(ctx, st, result):
+    d = st.data
+    tag = f"[{','.join(d['kinds']) or 'none'};include_positionals={d['include']}]"
+    want = [a for a, kd in zip(d["acts"], d["kinds"]) if OP_KINDS[kd][4] is True or (OP_KINDS[kd][4] == "positional" and d["include"])]
+    ctx.oblige("post", "exactly-the-user-declared-options-that-take-one-value(not config/loader/completion/help/print-config,not subclass-typed;positionals only when asked),in-declaration-order" + tag,
+               isinstance(result, list) and len(result) == len(want) and all(x is y for x, y in zip(result, want)))
+    ctx.oblige("frame", "parser-and-actions-are-not-modified" + tag, len(d["parser"].attrs["_actions"]) == len(d["acts"]) and all(a.attrs == at for a, at in d["snap"]) and all(x is y for x, y in zip(d["parser"].attrs["_actions"], d["acts"])))
+
+
+def sp_setup(ctx):
+    setting = z3.Bool("parse_optionals_as_positionals")
+    has_sub = ctx.choose(2, "parser-has-subcommands") == 1
+    inner = ["attribute-missing", False, True][ctx.choose(3, "_inner_parser")]
+    attrs = {"_subcommands_action": Rec("_ActionSubCommands") if has_sub else None}
+    if inner != "attribute-missing":
+        attrs["_inner_parser"] = inner
+    asked = []
+    parser = Rec("ArgumentParser", attrs=attrs)
+    return Setup(env={"parser": parser}, calls={"get_parsing_setting": lambda c, a, k: (asked.append(a), setting if a == ("parse_optionals_as_positionals",) else z3.Bool("another-setting"))[1]},
+                 data=dict(setting=setting, has_sub=has_sub, inner=inner, parser=parser, snap=dict(attrs)))
+
+
+def sp_post(ctx, st, result):
+    d = st.data
+    tag = f"[subcommands:{d['has_sub']},_inner_parser:{d['inner']}]"
+    r = result if isinstance(result, bool) or (is_z3(result) and result.sort() == z3.BoolSort()) else None
+    ctx.oblige("post", "a-truth-value" + tag, r is not None)
+    if r is not None:
+        ctx.oblige("post", "supported-exactly-when-the-setting-is-on,the-parser-has-no-subcommands-and-is-not-an-inner-(class)-parser" + tag, lift(r) == z3.And(d["setting"], z3.BoolVal(not d["has_sub"] and d["inner"] is not True)))
+    ctx.oblige("frame", "the-parser-is-not-modified" + tag, d["parser"].attrs == d["snap"])
+
+
 def units(prop):
     out = [
         Unit(prop, A + "_find_action", fa_setup, fa_post, _no_exc, max_paths=20000,
@@ -310,7 +1277,52 @@ def units(prop):
         Unit(prop, A + "filter_default_actions", fd_setup, fd_post, _no_exc, trusted=["isinstance follows the class hierarchy of the sources"]),
         Unit(prop, A + "remove_actions", rm_setup, rm_post, _no_exc, max_paths=20000, trusted=["list.remove removes the first member equal to (here: identical with) the argument", "the nested remove() is interpreted as part of the unit"]),
     ]
+    out += [
+        Unit(prop, A + "ActionParser.__init__", ap_setup, ap_post, ap_raises, expect_cover=("return", "raise:ValueError"), trusted=["import_object('jsonargparse.ArgumentParser') is the jsonargparse ArgumentParser class"]),
+        Unit(prop, A + "ActionParser._is_valid_action_parser", iv_setup, iv_post, iv_raises, expect_cover=("return", "raise:ValueError"), trusted=["parsers compare by identity (argparse defines no __eq__)"]),
+        Unit(prop, A + "ActionYesNo._add_dest_prefix", ydp_setup, ydp_post, _no_exc, trusted=["re.sub('^' + literal, repl, text) replaces a leading literal (prefixes hold no regex metacharacters)"]),
+        Unit(prop, A + "ActionYesNo.__call__", yc_setup, yc_post, _no_exc, trusted=["argparse calls the action with (parser, namespace, converted value, the option string used)", "setattr on the namespace stores under that name"]),
+        Unit(prop, A + "ActionYesNo.__init__", yi_setup, yi_post, yi_raises, max_paths=20000, expect_cover=("return", "raise:ValueError"),
+             trusted=["re.sub as above", "argparse.Action.__init__ (super()) stores the keywords it is given"]),
+        Unit(prop, A + "ActionYesNo._boolean_type", bt_setup, bt_post, bt_raises, expect_cover=("return", "raise:TypeError"), trusted=["str.lower of a symbolic string is a function of the string (the clauses are stated through it); concrete strings use CPython's"]),
+        Unit(prop, A + "ActionYesNo._check_type", yct_setup, yct_post, yct_raises, expect_cover=("return", "raise:TypeError"), trusted=["_boolean_type: its own unit"]),
+    ]
+    out += [
+        Unit(prop, A + "ActionConfigFile.__init__", cf_setup, cf_post, cf_raises, expect_cover=("return", "raise:ValueError"),
+             trusted=["argparse derives the dest from the first long option string (the only one otherwise)", "set_default_error: its own unit", "argparse.Action.__init__ (super()) stores the keywords"]),
+        Unit(prop, A + "ActionConfigFile.__call__", cfc_setup, cfc_post, cfc_raises, expect_cover=("return", "raise:TypeError"), trusted=["apply_config: unit of C03/C04"]),
+        Unit(prop, A + "ActionConfigFile.set_default_error", lambda ctx: Setup(env={}), sde_post, sde_raises, expect_cover=("raise:ValueError",)),
+        Unit(prop, A + "ActionConfigFile._ensure_single_config_argument", esc_setup, esc_post, esc_raises, expect_cover=("return", "raise:ValueError"), max_paths=20000,
+             trusted=["is_subclass(x, C): x is a class and a subclass of C (False for non-classes)"]),
+        Unit(prop, A + "ActionConfigFile._add_print_config_argument", apc_setup, apc_post, _no_exc, trusted=["str % str substitutes the single %s", "print_config names start with '--' (documented form); another spelling fails the function's own assert"]),
+        Unit(prop, A + "_ActionConfigLoad.__init__", cl_setup, cl_post, _no_exc, trusted=["argparse.Action.__init__ (super()) stores the keywords"]),
+        Unit(prop, A + "_ActionConfigLoad.check_type", clc_setup, clc_post, clc_raises, expect_cover=("return", "raise:TypeError"), trusted=["_load_config raises TypeError only (it wraps loader errors itself)"]),
+        Unit(prop, CM + "Action._check_type_", ct_setup, ct_post, ct_raises, max_paths=20000, expect_cover=("return", "raise:TypeError", "raise:ValueError"),
+             trusted=["inspect.signature(f).parameters.keys() lists f's parameter names", "the checker's signature does not change between calls (the cache is per action)"]),
+        Unit(prop, A + "_ActionPrintConfig.__init__", pci_setup, pci_post, _no_exc, trusted=["argparse.SUPPRESS as dest/default: nothing is stored in the namespace, no default is set"]),
+        Unit(prop, A + "_ActionPrintConfig.is_print_config_requested", pcr_setup, pcr_post, _no_exc, trusted=["a sub-parser reaches its parent through parent_parser (set by add_subcommand)"]),
+        Unit(prop, A + "_ActionHelpClassPath.__init__", hi_setup, hi_post, _no_exc, trusted=["update_init_kwargs: its own unit", "argparse.Action.__init__ (super()) stores the keywords"]),
+        Unit(prop, A + "_ActionHelpClassPath.__call__", hc_setup, hc_post, hc_raises, expect_cover=("return", "raise:SystemExit", "raise:ArgumentError", "raise:TypeError"), trusted=["print_help: unit of C03 (never returns)"]),
+        Unit(prop, A + "_ActionHelpClassPath.update_init_kwargs", hu_setup, hu_post, _no_exc,
+             trusted=["the type-hint helpers (get_optional_arg, get_unaliased_type, get_typehint_origin, get_subclass_types/names, is_protocol) are pure", "nargs is not given for a subclass type (the function asserts it)", "at least one base class (asserted)"]),
+        Unit(prop, A + "_ActionHelpClassPath.get_args_after_opt", ga_setup, ga_post, _no_exc, max_paths=20000,
+             trusted=["the help option occurs in parser.args spelled out in full (it is called from that option's action; an abbreviated spelling is not recognised and yields [])", "option strings contain no '='"]),
+        Unit(prop, A + "_ActionSubCommands.add_parser", addp_setup, addp_post, addp_raises, expect_cover=("raise:NotImplementedError",)),
+        pkc_unit(prop),
+        Unit(prop, CM + "get_optionals_as_positionals_actions", op_setup, op_post, _no_exc, max_paths=20000,
+             trusted=["filter_default_actions interpreted from its real body", "ActionTypeHint.is_subclass_typehint(action, all_subtypes=False): the action's type is a class type"]),
+        Unit(prop, CM + "supports_optionals_as_positionals", sp_setup, sp_post, _no_exc, trusted=["get_parsing_setting(name) returns the setting of that name"]),
+    ]
     return out
 
 
-CARRIES = {"C06": ["_find_action", "_find_parent_action"]}
+CARRIES = {
+    "C06": ["_find_action", "_find_parent_action", "filter_default_actions", "remove_actions", "get_optionals_as_positionals_actions", "supports_optionals_as_positionals"],
+    "C07": ["ActionParser.__init__", "ActionParser._is_valid_action_parser", "ActionYesNo._add_dest_prefix", "_ActionConfigLoad.__init__"],
+    "C09": ["ActionYesNo.__call__", "ActionYesNo.__init__", "ActionYesNo._boolean_type", "ActionYesNo._check_type", "ActionConfigFile.__call__", "_ActionPrintConfig.__init__",
+            "_ActionPrintConfig.is_print_config_requested", "_ActionHelpClassPath.__init__", "_ActionHelpClassPath.__call__", "_ActionHelpClassPath.update_init_kwargs",
+            "_ActionHelpClassPath.get_args_after_opt", "remove_actions", "_ActionSubCommands.parse_kwargs_context"],
+    "C03": ["ActionConfigFile.__init__", "ActionConfigFile.set_default_error", "ActionConfigFile._ensure_single_config_argument", "ActionConfigFile._add_print_config_argument",
+            "_ActionConfigLoad.check_type", "Action._check_type_", "ActionYesNo._boolean_type", "ActionYesNo._check_type"],
+    "C17": ["_ActionSubCommands.add_parser", "_ActionSubCommands.parse_kwargs_context"],
+}
